@@ -52,6 +52,7 @@ def main():
                 print("!! %s does not apply: %s" % (os.path.basename(p), r.stderr.strip()[:300]))
                 continue
             fired, silent, broken = [], [], []
+            reports = []
             for pid in props:
                 if not os.path.exists(os.path.join(VERIF, "zkverif", "rules", pid.lower() + ".py")):
                     continue
@@ -65,6 +66,9 @@ def main():
                     silent.append(pid)
                 else:
                     fired.append(pid)
+                    for line in r.stdout.splitlines():
+                        if line.startswith("  rule=") and len(reports) < 6:
+                            reports.append(pid + ": " + line.strip())
                     if not preserving and pid in expect:
                         for line in r.stdout.splitlines():
                             if line.startswith("  rule=") or line.startswith("    "):
@@ -83,14 +87,23 @@ def main():
                 missed = [e for e in expect if e in silent]
                 status = ("caught by " + ",".join(fired)) if fired and not missed else ("MISSED " + ",".join(missed) + (" (caught by " + ",".join(fired) + ")" if fired else ""))
             print("%-60s %s" % (name, status))
-            results.append((name, status, ""))
+            results.append((name, status, reports))
         finally:
             sh("git", "-C", "/repo", "worktree", "remove", "--force", wt)
             shutil.rmtree(wt, ignore_errors=True)
     bad = [r for r in results if "MISSED" in r[1] or "FALSE-ALARM" in r[1] or "DOES-NOT" in r[1] or "PATCH" in r[1]]
     print("\n%d patches, %d problems" % (len(results), len(bad)))
-    with open(os.path.join(VERIF, "selftest", "last_result.json"), "w") as f:
-        json.dump({"at": time.strftime("%Y-%m-%dT%H:%M:%S"), "results": results}, f, indent=1)
+    lr = os.path.join(VERIF, "selftest", "last_result.json")
+    merged = {}
+    try:
+        for n, st, rp in json.load(open(lr)).get("results", []):
+            merged[n] = (n, st, rp)
+    except (OSError, ValueError):
+        pass
+    for n, st, rp in results:
+        merged[n] = (n, st, rp)
+    with open(lr, "w") as f:
+        json.dump({"at": time.strftime("%Y-%m-%dT%H:%M:%S"), "results": [merged[k] for k in sorted(merged)]}, f, indent=1)
     return 1 if bad else 0
 
 
